@@ -28,6 +28,7 @@ type JobSpec struct {
 	ReplayRestore bool // native replay restores the FS image captured at the violation and runs the harness in phase-2 mode
 	Witness       bool // vacuity twin: must end in the violation "witness"
 	ReplayCount   int  // run the native replay this many times (map-iteration-order dependent harnesses)
+	CrossCheck    bool // re-decide every solver query of this job with z3-new and cvc5
 	NoReplay      bool // violations of this job cannot be replayed natively (schedule/fault harness); see DESIGN
 }
 
@@ -184,7 +185,7 @@ func runCheck(def *CheckDef, tier string, seed int, noKnown, noReplay bool, only
 		if tier == "thorough" {
 			lim.QueryMs = 60000
 		}
-		job := &sx.Job{Name: js.Name, Pkg: pkg, Func: js.Func, Params: js.Params, Limits: lim, Known: known, EnvOpts: sx.EnvOpts{PageSize: js.PageSize}}
+		job := &sx.Job{Name: js.Name, Pkg: pkg, Func: js.Func, Params: js.Params, Limits: lim, Known: known, EnvOpts: sx.EnvOpts{PageSize: js.PageSize}, CrossCheck: js.CrossCheck || (tier == "thorough" && js.Witness)}
 		res := P.RunJob(job)
 		outcomes = append(outcomes, jobOutcome{js, res})
 		if verbose {
@@ -205,6 +206,7 @@ func runCheck(def *CheckDef, tier string, seed int, noKnown, noReplay bool, only
 	var qs struct{ q, sat, unsat, unknown, errs int }
 	var solverT time.Duration
 	distinct := 0
+	crossQ, crossD := 0, 0
 	passingValidated := 0
 	passingBudget := 2
 	if tier == "thorough" {
@@ -238,6 +240,14 @@ func runCheck(def *CheckDef, tier string, seed int, noKnown, noReplay bool, only
 		solverT += r.Queries.Time
 		if r.Incomplete != "" {
 			inconclusive = append(inconclusive, o.spec.Name+": "+r.Incomplete)
+		}
+		crossQ += r.CrossQueries
+		crossD += r.CrossDisagreements
+		if r.CrossDisagreements > 0 {
+			inconclusive = append(inconclusive, fmt.Sprintf("%s: %d cross-solver disagreements", o.spec.Name, r.CrossDisagreements))
+		}
+		for _, e := range r.CrossErrors {
+			inconclusive = append(inconclusive, o.spec.Name+": cross-solver check: "+e)
 		}
 		if r.Queries.Errors > 0 {
 			inconclusive = append(inconclusive, fmt.Sprintf("%s: %d solver errors", o.spec.Name, r.Queries.Errors))
@@ -352,6 +362,8 @@ func runCheck(def *CheckDef, tier string, seed int, noKnown, noReplay bool, only
 		"reach_labels":                    reach,
 		"known_findings_hit":              khList,
 		"inconclusive_reasons":            inconclusive,
+		"cross_solver_queries":            crossQ,
+		"cross_solver_disagreements":      crossD,
 		"replays":                         replays,
 		"passing_paths_replayed_natively": passing,
 		"bounds":                          def.Bounds[tier],
